@@ -46,6 +46,11 @@ namespace {
     if (c == "two") return T(2);
     if (c == "min") return L::lowest();
     if (c == "max") return L::max();
+    if constexpr (std::is_floating_point_v<T>) {
+      if (c == "nan") return L::quiet_NaN();
+      if (c == "inf") return L::infinity();
+      if (c == "ninf") return -L::infinity();
+    }
     // (no conditional operator here: its common type would be double and round 64-bit values)
     if constexpr (std::is_floating_point_v<T>) {
       if (c == "minp1") return std::nextafter(L::lowest(), T(0));
